@@ -174,8 +174,22 @@ def run(ctx):
                 if lead_ws:
                     decl_kind += '-after-white-space'
                 doc += lead_ws + decl + rng.choice(['', '\n', '\r\n'])
+            decoy = ''
+            if rng.random() < .35:
+                # an element that merely mentions a charset (the HTML5 short form, a description, another http-equiv) is no
+                # content-type element: it decides nothing
+                other = rng.choice([l for l in ('windows-1251', 'koi8-r', 'cp437', 'shift_jis', 'latin-1', 'utf-8', 'cp1252')
+                                    if not same_codec(l, enc) and not same_codec(l, default)])
+                decoy = rng.choice(['<meta charset="%s">', "<meta charset='%s'/>", '<meta name="description" content="why charset=%s matters">',
+                                    '<meta http-equiv="X-Legacy" content="text/html; charset=%s">', '<META CHARSET=%s>',
+                                    '<meta content="text/html; charset=%s" name="generator">',
+                                    '<meta name="keywords" lang="en" content="a, charset=%s">']) % other
+                ctx.mon('documents-with-an-element-that-merely-mentions-a-charset')
             if meta:
-                doc += '<html><head>' + meta + '</head><body>' + body + '</body></html>'
+                before = rng.random() < .5
+                doc += '<html><head>' + (decoy if before else '') + meta + ('' if before else decoy) + '</head><body>' + body + '</body></html>'
+            elif decoy:
+                doc += '<html><head>' + decoy + '</head><body>' + body + '</body></html>'
             else:
                 doc += body
             raw = doc.encode(enc)
